@@ -34,7 +34,11 @@ def handle (hdr : List String) (body : List (List String)) : List String :=
             else if w == "idle" then some ⟨b, .idle⟩
             else match w.splitOn ":" with
               | ["after", k] => k.toNat?.map (fun k => ⟨b, .afterDelivery k⟩)
+              | ["boot", k] => k.toNat?.map (fun k => ⟨b, .afterDelivery k⟩)    -- the hub's bootstrap, during delivery k
               | _ => none)
+        | _ => none)
+      let bootAt : Option Nat := body.findSome? (fun ws => match ws with
+        | ["hub", _, w] => (match w.splitOn ":" with | ["boot", k] => k.toNat? | _ => none)
         | _ => none)
       let cfg : SCfg := { start := st, stop := sp, cursor := if mode == "num" then none else cur?, cursorIsTarget := mode == "through",
                           finalOnly := fin == "1", customFilter := if cust == "-" then none else cust.toNat?, bundleSize := bs, fsb := fsb,
@@ -158,6 +162,9 @@ def handle (hdr : List String) (body : List (List String)) : List String :=
                     -- block at the cursor's height; a hub may legitimately refuse a cursor that forked below its LIB):
                     -- waiting for a merged file that the static store of the test does not hold is not a stall
                     && (match cfg.cursor with | some c => tip.num ≥ c.block.num | none => true)
+                    -- a hub that came up only after the file side had handed over its last block is asked again only when
+                    -- the next merged file appears (join attempts are made on file events): not a stall of the stream
+                    && (match bootAt with | some k => impl.length > k + 1 | none => true)
                 then ["monitor C07 FAIL stream-stalls-although-the-hub-retains-its-tip-and-holds-later-canonical-blocks"] else []
               | _, _ => []
             if stalled != [] then stalled else
